@@ -129,7 +129,11 @@ func (requestBody *RequestBody) Validate(ctx context.Context, opts ...Validation
 	}
 
 	if vo := getValidationOptions(ctx); !vo.examplesValidationDisabled {
-		vo.examplesValidationAsReq, vo.examplesValidationAsRes = true, false
+		// examples below a request body are read as requests; the direction belongs to this subtree only
+		// (not to the options the caller passed, and whether or not any were passed)
+		below := *vo
+		below.examplesValidationAsReq, below.examplesValidationAsRes = true, false
+		ctx = context.WithValue(ctx, validationOptionsKey{}, &below)
 	}
 
 	if err := requestBody.Content.Validate(ctx); err != nil {
